@@ -2506,4 +2506,254 @@ theorem vis_glyphOf_ltr (u : Ucd) (f : Font) (c : Cfg) (t : Nat × Nat) (hdir : 
   rw [rotCp_ltr u f c _ hdir, hdir]
   rfl
 
+/-! ## cluster values come from the input -/
+
+theorem foldl_min_cluster (S : Nat → Prop) (l : List G) (c0 : Nat) (h0 : S c0) (hl : ∀ g ∈ l, S g.cluster) :
+    S (l.foldl (fun c g => min c g.cluster) c0) := by
+  induction l generalizing c0 with
+  | nil => exact h0
+  | cons a t ih =>
+    rw [List.foldl_cons]
+    apply ih
+    · rcases Nat.le_total c0 a.cluster with h | h
+      · rw [Nat.min_eq_left h]; exact h0
+      · rw [Nat.min_eq_right h]; exact hl a List.mem_cons_self
+    · exact fun g hg => hl g (List.mem_cons_of_mem _ hg)
+
+theorem mergeSeg_cl (S : Nat → Prop) (pre seg post : List G)
+    (hp : ∀ g ∈ pre, S g.cluster) (hs : ∀ g ∈ seg, S g.cluster) (ho : ∀ g ∈ post, S g.cluster) :
+    (∀ g ∈ (mergeSeg pre seg post).1, S g.cluster) ∧ (∀ g ∈ (mergeSeg pre seg post).2, S g.cluster) := by
+  unfold mergeSeg
+  cases seg with
+  | nil => exact ⟨hp, ho⟩
+  | cons g0 tl =>
+    dsimp only
+    have hc : S (tl.foldl (fun c g => min c g.cluster) g0.cluster) :=
+      foldl_min_cluster S tl _ (hs g0 List.mem_cons_self) (fun g hg => hs g (List.mem_cons_of_mem _ hg))
+    constructor
+    · intro g hg
+      simp only [List.mem_append, List.mem_map] at hg
+      rcases hg with hg | ⟨x, _, rfl⟩
+      · exact hp g (List.mem_of_mem_take hg)
+      · exact hc
+    · intro g hg
+      simp only [List.mem_append, List.mem_map] at hg
+      rcases hg with ⟨x, _, rfl⟩ | hg
+      · exact hc
+      · exact ho g (List.mem_of_mem_drop hg)
+
+theorem mergeClusters_cl (S : Nat → Prop) (level : Nat) (pre seg post : List G)
+    (hp : ∀ g ∈ pre, S g.cluster) (hs : ∀ g ∈ seg, S g.cluster) (ho : ∀ g ∈ post, S g.cluster) :
+    (∀ g ∈ (mergeClusters level pre seg post).1, S g.cluster) ∧
+    (∀ g ∈ (mergeClusters level pre seg post).2, S g.cluster) := by
+  have hso : ∀ g ∈ seg ++ post, S g.cluster := by
+    intro g hg; rcases List.mem_append.mp hg with h | h
+    · exact hs g h
+    · exact ho g h
+  unfold mergeClusters
+  split
+  · exact ⟨hp, hso⟩
+  · split
+    · exact ⟨hp, hso⟩
+    · exact mergeSeg_cl S pre seg post hp hs ho
+
+theorem graphemeWalk_cl (S : Nat → Prop) (merge : Bool) (level : Nat) (rev : Bool) (n : Nat) (done l : List G)
+    (hd : ∀ g ∈ done, S g.cluster) (hl : ∀ g ∈ l, S g.cluster) :
+    ∀ g ∈ graphemeWalk merge level rev n done l, S g.cluster := by
+  induction n generalizing done l with
+  | zero =>
+    intro g hg
+    simp only [graphemeWalk, List.mem_append] at hg
+    rcases hg with h | h
+    · exact hd g h
+    · exact hl g h
+  | succ n ih =>
+    cases l with
+    | nil => intro g hg; simp only [graphemeWalk] at hg; exact hd g hg
+    | cons a tl =>
+      simp only [graphemeWalk]
+      have hseg : ∀ g ∈ a :: tl.takeWhile G.cont, S g.cluster := by
+        intro g hg
+        simp only [List.mem_cons] at hg
+        rcases hg with rfl | hg
+        · exact hl _ List.mem_cons_self
+        · exact hl g (List.mem_cons_of_mem _ (mem_of_mem_takeWhile hg))
+      have hpost : ∀ g ∈ tl.dropWhile G.cont, S g.cluster :=
+        fun g hg => hl g (List.mem_cons_of_mem _ (mem_of_mem_dropWhile hg))
+      have hr : (∀ g ∈ (if merge = true then mergeClusters level done (a :: tl.takeWhile G.cont) (tl.dropWhile G.cont)
+            else (done, a :: tl.takeWhile G.cont ++ tl.dropWhile G.cont)).1, S g.cluster) ∧
+          (∀ g ∈ (if merge = true then mergeClusters level done (a :: tl.takeWhile G.cont) (tl.dropWhile G.cont)
+            else (done, a :: tl.takeWhile G.cont ++ tl.dropWhile G.cont)).2, S g.cluster) := by
+        split
+        · exact mergeClusters_cl S level done _ _ hd hseg hpost
+        · refine ⟨hd, ?_⟩
+          intro g hg
+          rcases List.mem_append.mp hg with h | h
+          · exact hseg g h
+          · exact hpost g h
+      apply ih
+      · intro g hg
+        rcases List.mem_append.mp hg with h | h
+        · exact hr.1 g h
+        · split at h
+          · exact hr.2 g (List.mem_of_mem_take (List.mem_reverse.mp h))
+          · exact hr.2 g (List.mem_of_mem_take h)
+      · exact fun g hg => hr.2 g (List.mem_of_mem_drop hg)
+
+theorem deleteDI_cl (S : Nat → Prop) (level n : Nat) (out l : List G)
+    (ho : ∀ g ∈ out, S g.cluster) (hl : ∀ g ∈ l, S g.cluster) :
+    ∀ g ∈ deleteDI level n out l, S g.cluster := by
+  induction n generalizing out l with
+  | zero =>
+    intro g hg
+    simp only [deleteDI, List.mem_append] at hg
+    rcases hg with h | h
+    · exact ho g h
+    · exact hl g h
+  | succ n ih =>
+    cases l with
+    | nil => intro g hg; simp only [deleteDI] at hg; exact ho g hg
+    | cons a tl =>
+      have ha := hl a List.mem_cons_self
+      have htl : ∀ g ∈ tl, S g.cluster := fun g hg => hl g (List.mem_cons_of_mem _ hg)
+      simp only [deleteDI]
+      split
+      · split
+        · exact ih out tl ho htl
+        · cases hlast : out.getLast? with
+          | some last =>
+            simp only
+            apply ih _ tl _ htl
+            split
+            · intro g hg
+              unfold mergeBackward at hg
+              simp only [List.mem_append, List.mem_map] at hg
+              rcases hg with h | ⟨x, _, rfl⟩
+              · exact ho g (List.mem_of_mem_take h)
+              · exact ha
+            · exact ho
+          | none =>
+            simp only
+            apply ih _ _ ho
+            intro g hg
+            cases tl with
+            | nil => simp [mergeForwardDrop] at hg
+            | cons b tl' =>
+              simp only [mergeForwardDrop] at hg
+              have := (mergeClusters_cl S level [] [a, b] tl' (by simp)
+                (by intro x hx; simp only [List.mem_cons, List.not_mem_nil, or_false] at hx
+                    rcases hx with rfl | rfl
+                    · exact ha
+                    · exact htl _ List.mem_cons_self)
+                (fun x hx => htl x (List.mem_cons_of_mem _ hx))).2
+              exact this g (List.mem_of_mem_drop hg)
+      · apply ih _ tl _ htl
+        intro g hg
+        rcases List.mem_append.mp hg with h | h
+        · exact ho g h
+        · simp only [List.mem_singleton] at h; rw [h]; exact ha
+
+
+theorem decomposeCurrent_cluster (u : Ucd) (f : Font) (g : G) (s : Scratch) :
+    (decomposeCurrent u f g s).1.cluster = g.cluster := by
+  unfold decomposeCurrent
+  split
+  · rfl
+  · simp only
+    split
+    · rfl
+    · split
+      · split <;> rfl
+      · rfl
+
+theorem setGlyph_cluster (f : Font) (g : G) : (setGlyph f g).cluster = g.cluster := by
+  unfold setGlyph; split <;> rfl
+
+theorem normStep_cluster {u : Ucd} {f : Font} {g g' : G} (h : NormStep u f g g') : g'.cluster = g.cluster := by
+  rcases h with h | ⟨s, h⟩ | h | h
+  · rw [h]
+  · rw [h]; exact decomposeCurrent_cluster u f g s
+  · rw [h]; exact setGlyph_cluster f g
+  · rw [h, setGlyph_cluster]; rfl
+
+theorem insertDottedCircle_cl (S : Nat → Prop) (u : Ucd) (f : Font) (c : Cfg) (l : List G) (s : Scratch)
+    (hl : ∀ g ∈ l, S g.cluster) : ∀ g ∈ (insertDottedCircle u f c l s).1, S g.cluster := by
+  unfold insertDottedCircle
+  cases l with
+  | nil => exact hl
+  | cons g0 tl =>
+    simp only
+    split
+    · intro g hg
+      simp only [G.init, List.mem_cons] at hg
+      rcases hg with rfl | hg
+      · exact hl g0 List.mem_cons_self
+      · exact hl g (by simpa using hg)
+    · exact hl
+
+theorem prepare_cl (S : Nat → Prop) (u : Ucd) (f : Font) (c : Cfg) (l : List G) (hl : ∀ g ∈ l, S g.cluster) :
+    ∀ g ∈ (prepare u f c l).1, S g.cluster := by
+  unfold prepare
+  simp only
+  have h1 : ∀ g ∈ (setUnicodeProps u none false l {}).1, S g.cluster := by
+    intro g' hg'
+    obtain ⟨g, hg, cont, he⟩ := setUnicodeProps_step u none false l {} g' hg'
+    rw [he]; exact hl g hg
+  have h2 := insertDottedCircle_cl S u f c _ (setUnicodeProps u none false l {}).2 h1
+  have h3 : ∀ g ∈ formClusters c (insertDottedCircle u f c (setUnicodeProps u none false l {}).1
+      (setUnicodeProps u none false l {}).2).1 (insertDottedCircle u f c (setUnicodeProps u none false l {}).1
+      (setUnicodeProps u none false l {}).2).2, S g.cluster := by
+    unfold formClusters
+    split
+    · exact graphemeWalk_cl S _ _ _ _ [] _ (by simp) h2
+    · exact h2
+  unfold ensureNativeDirection
+  split
+  · unfold reverseGraphemes
+    intro g hg
+    exact graphemeWalk_cl S _ _ _ _ [] _ (by simp) h3 g (List.mem_reverse.mp hg)
+  · exact h3
+
+theorem finish_cl (S : Nat → Prop) (f : Font) (c : Cfg) (bdir : Dir) (s : Scratch) (l : List G)
+    (hl : ∀ g ∈ l, S g.cluster) : ∀ g ∈ finish f c bdir s l, S g.cluster := by
+  unfold finish
+  have h1 : ∀ g ∈ (if bdir.isBackward then l.reverse else l), S g.cluster := by
+    split
+    · exact fun g hg => hl g (List.mem_reverse.mp hg)
+    · exact hl
+  unfold hideDI
+  split
+  · split
+    · rename_i sp _
+      intro g hg
+      obtain ⟨x, hx, rfl⟩ := List.mem_map.mp hg
+      have : (hide1 sp x).cluster = x.cluster := by unfold hide1; split <;> rfl
+      rw [this]; exact h1 x hx
+    · exact deleteDI_cl S _ _ [] _ (by simp) h1
+  · exact h1
+
+/-- every cluster value in the result of `shapeCore` is the cluster of some input character -/
+theorem shapeCore_cl (u : Ucd) (f : Font) (c : Cfg) (text : List (Nat × Nat)) :
+    ∀ g ∈ shapeCore u f c (initial text), ∃ t ∈ text, g.cluster = t.2 := by
+  let S : Nat → Prop := fun cl => ∃ t ∈ text, cl = t.2
+  have h0 : ∀ g ∈ initial text, S g.cluster := by
+    intro g hg
+    unfold initial at hg
+    obtain ⟨t, ht, rfl⟩ := List.mem_map.mp hg
+    exact ⟨t, ht, rfl⟩
+  unfold shapeCore
+  simp only
+  apply finish_cl S
+  intro g3 hg3
+  obtain ⟨g2, hg2, hchain⟩ := position_step _ _ _ _ _ g3 hg3
+  rw [hchain.facts.1.2.2.1]
+  have hsub : ∀ g ∈ (substitute u f c (prepare u f c (initial text)).1 (prepare u f c (initial text)).2.1).1,
+      S g.cluster := by
+    apply substitute_all u f c _ _ (fun g => S g.cluster) (fun g => S g.cluster)
+    · intro g hg g1 ⟨x, hx⟩ g2 hn
+      have : (mapGlyph1 g2).cluster = g2.cluster := rfl
+      rw [this, normStep_cluster hn, hx]; exact hg
+    · exact prepare_cl S u f c _ h0
+  exact hsub g2 hg2
+
 end RbModel.Pipeline
